@@ -342,4 +342,49 @@ for idx, (fmt, feat) in enumerate(plan):
                     small = minimise(case_seed, fmt, feat, allow, symptom)
                     record(fmt, symptom, small, case_seed, allow, r[2])
 
+# pure h shells (l = 5): Molden and Molekel can hold them; with and without a pure g shell next to them
+for fmt in ("molden", "molekel"):
+    if only and fmt != only:
+        continue
+    for with_g in (False, True):
+        ncase += 1
+        shells = [Shell(0, [0], ["c"], [1.3], [[1.0]]), Shell(0, [0], ["c"], [0.4], [[1.0]])]
+        if with_g:
+            shells.append(Shell(0, [4], ["p"], [0.9], [[1.0]]))
+        shells.append(Shell(0, [5], ["p"], [0.7], [[1.0]]))
+        obasis = MolecularBasis(shells, conventions_for("own", fmt, None), "L2")
+        nb = obasis.nbasis
+        coords = np.zeros((1, 3))
+        sm = compute_overlap(obasis, coords)
+        w_, v_ = np.linalg.eigh(sm)
+        q_, _ = np.linalg.qr(np.random.default_rng(seed + 77).normal(size=(nb, nb)))
+        cm = (v_ / np.sqrt(w_)) @ v_.T @ q_
+        mo = MolecularOrbitals("restricted", nb, nb, np.array([2.0] + [0.0] * (nb - 1)), cm, np.arange(nb, dtype=float))
+        data = IOData(atnums=[2], atcoords=coords, obasis=obasis, mo=mo, title="h shell")
+        fn = os.path.join(tmp, f"hshell.{fmt}")
+        feat = dict(BASE)
+        tag = "pure-h-shell" + ("-next-to-pure-g" if with_g else "-without-g")
+        try:
+            dump_one(data, fn, fmt=fmt)
+        except Exception:
+            stats[fmt]["refused"] += 1
+            continue
+        try:
+            back = load_one(fn, fmt=fmt)
+            pts = np.random.default_rng(5).uniform(-2, 2, size=(6, 3))
+            sym = compare(data, back, fmt, pts)
+        except Exception as exc:  # noqa: BLE001
+            sym = ["unreadable"]
+            detail = repr(exc.__cause__ or exc)[:200]
+        else:
+            detail = ""
+        if sym:
+            stats[fmt]["fail"] += 1
+            for sy in sym:
+                g = groups.setdefault(f"{fmt}.{sy}@shells={tag}", {"fails": [], "n": 0})
+                g["n"] += 1
+                g["fails"].append({"format": fmt, "case_seed": -1, "allow_changes": False, "features": {"shells": tag}, "detail": detail})
+        else:
+            stats[fmt]["ok"] += 1
+
 print(json.dumps({"groups": groups, "stats": stats, "cases": ncase}, default=str))
